@@ -28,7 +28,7 @@ ASSUMPTIONS = [
 ]
 EXHAUSTIVE = {"quick": ["transition relation of all DAGs on <= 3 operators (all reachable states x 6n requests)",
                         "all request histories of depth <= 4 on all DAGs on <= 3 operators"],
-              "thorough": ["transition relation of all DAGs on <= 3 operators", "all request histories of depth <= 5 (<= 3 operators) and 6 (<= 2 operators)"]}
+              "thorough": ["transition relation of all DAGs on <= 4 operators (75 DAGs)", "all request histories of depth <= 5 (<= 3 operators) and 6 (<= 2 operators)"]}
 NSHARDS = {"quick": 16, "thorough": 16}
 DEPTH = {"quick": 4, "thorough": 5}
 N_SIM = {"quick": 20, "thorough": 500}
@@ -47,6 +47,12 @@ def cases(tier, seed, shard, nshards):
         if idx % nshards == shard:
             yield {"kind": "relation", "n": n, "dag": di}
         idx += 1
+    if tier == "thorough":
+        # complete transition relation also for every DAG on 4 operators (64 DAGs, up to 1296 state vectors each)
+        for di in range(gen.count_dags(4)):
+            if idx % nshards == shard:
+                yield {"kind": "relation", "n": 4, "dag": di}
+            idx += 1
     d = DEPTH[tier]
     for n, di in DAGS:
         reqs = n * len(STATES)
